@@ -8,53 +8,51 @@ import Pycoin.Model.VM.Streamer
 namespace Pycoin.VM
 open Pycoin.Gen.VM
 
-/-! ### der.py (as called with `use_broken_open_ssl_mechanism=True`) -/
+/-! ### der.py: `sigdecode_der_lax` (port of Core's lax parser) -/
 
-/-- exceptions of the DER reader: `UnexpectedDER`/`ValueError` are caught by `checksigs`; `TypeError`
-(`ord(b"")` in `read_length`) is not -/
-inductive DerErr | unexpected | typeError
-  deriving DecidableEq, Repr
+/-- the only exception the lax reader raises is `UnexpectedDER` (caught by `checksigs`) -/
+abbrev Der := Option
 
-/-- `int(binascii.hexlify(b), 16)`; `ValueError` on the empty string -/
-def hexInt (b : Bytes) : Except DerErr Nat := if b.isEmpty then .error .unexpected else .ok (beNat b)
+/-- the long-form length loop `while lenbyte > 0 and sig[pos] == 0: pos += 1; lenbyte -= 1` -/
+def skipZeros (sig : Bytes) : Nat → Nat → Nat × Nat
+  | pos, 0 => (pos, 0)
+  | pos, lenbyte + 1 => if sig[pos]? = some 0 then skipZeros sig (pos + 1) lenbyte else (pos, lenbyte + 1)
 
-/-- `read_length(string)`: `(length, lengthlength)` -/
-def readLength (string : Bytes) : Except DerErr (Nat × Nat) :=
-  match string with
-  | [] => .error .typeError                                   -- ord(string[:1])
-  | s0 :: _ =>
-    if s0.toNat < 128 then .ok (s0.toNat % 128, 1)
-    else
-      let llen := s0.toNat % 128
-      if llen > string.length - 1 then .error .unexpected
-      else do pure (← hexInt (slice string 1 (1 + llen)), 1 + llen)
+/-- `_lax_integer(sig, pos)`: `(position of the number, its length, position after it)` -/
+def laxInteger (sig : Bytes) (pos : Nat) : Der (Nat × Nat × Nat) := do
+  let size := sig.length
+  if pos = size || sig[pos]? ≠ some 0x02 then none
+  let pos := pos + 1
+  if pos = size then none
+  let lenbyte := (← sig[pos]?).toNat
+  let pos := pos + 1
+  let (length, pos) ←
+    if lenbyte ≥ 128 then do
+      let lenbyte := lenbyte - 0x80
+      if lenbyte > size - pos then none
+      let (pos, lenbyte) := skipZeros sig pos lenbyte
+      if lenbyte ≥ 4 then none
+      pure (beNat (slice sig pos (pos + lenbyte)), pos + lenbyte)
+    else pure (lenbyte, pos)
+  if length > size - pos then none
+  pure (pos, length, pos + length)
 
-/-- `remove_sequence(string)` (slices truncate silently) -/
-def removeSequence (string : Bytes) : Except DerErr (Bytes × Bytes) :=
-  match string with
-  | 0x30 :: rest => do
-    let (length, ll) ← readLength rest
-    let endseq := 1 + ll + length
-    pure (slice string (1 + ll) endseq, string.drop endseq)
-  | _ => .error .unexpected
-
-/-- `remove_integer(string, True)`: the value is read as unsigned -/
-def removeInteger (string : Bytes) : Except DerErr (Nat × Bytes) :=
-  match string with
-  | 0x02 :: rest => do
-    let (length, llen) ← readLength rest
-    if string.length < 1 + llen + length then .error .unexpected
-    else
-      let v ← hexInt (slice string (1 + llen) (1 + llen + length))
-      pure (v, string.drop (1 + llen + length))
-  | _ => .error .unexpected
-
-/-- `sigdecode_der(sig_der, True)` -/
-def sigdecodeDer (sig : Bytes) : Except DerErr (Nat × Nat) := do
-  let (rs, _) ← removeSequence sig
-  let (r, rest) ← removeInteger rs
-  let (s, _) ← removeInteger rest
-  pure (r, s)
+/-- `sigdecode_der_lax(sig_der)`: `(r, s)`; `none` = `UnexpectedDER` -/
+def sigdecodeDerLax (sig : Bytes) : Der (Nat × Nat) := do
+  let size := sig.length
+  let pos := 0
+  if pos = size || sig[pos]? ≠ some 0x30 then none
+  let pos := pos + 1
+  if pos = size then none
+  let lenbyte := (← sig[pos]?).toNat
+  let pos := pos + 1
+  let pos ←
+    if lenbyte ≥ 128 then
+      if lenbyte - 0x80 > size - pos then none else pure (pos + (lenbyte - 0x80))
+    else pure pos
+  let (rpos, rlen, pos) ← laxInteger sig pos
+  let (spos, slen, _) ← laxInteger sig pos
+  pure (beNat (slice sig rpos (rpos + rlen)), beNat (slice sig spos (spos + slen)))
 
 /-! ### checksigops.py -/
 
@@ -85,9 +83,10 @@ def checkValidSignature (sig : Bytes) : M Unit := do
   if (← at' sig (rLen + 6)) ≥ 128 then .error sigDer
   if sLen > 1 && (← at' sig (rLen + 6)) = 0 && (← at' sig (rLen + 7)) < 128 then .error sigDer
 
-/-- `check_low_der_signature`: compares with `generator.p() - s` (the field prime) -/
-def checkLowDerSignature (s : Nat) : M Unit :=
-  if (generatorP : Int) - s < s then .error (scriptErr errno_SIG_HIGH_S) else pure ()
+/-- `check_low_der_signature`: out-of-range `r`/`s` are not "high" (they fail to verify); else `s > order // 2` -/
+def checkLowDerSignature (r s : Nat) : M Unit :=
+  if r ≥ generatorOrder || s ≥ generatorOrder then pure ()
+  else if s > generatorOrder / 2 then .error (scriptErr errno_SIG_HIGH_S) else pure ()
 
 /-- `check_defined_hashtype_signature` (non-empty `sig`): `sig[-1] & ~SIGHASH_ANYONECANPAY` -/
 def checkDefinedHashtypeSignature (sig : Bytes) : M Unit :=
@@ -100,7 +99,7 @@ def checkDefinedHashtypeSignature (sig : Bytes) : M Unit :=
 /-- outcome of `parse_and_check_signature_blob` inside the `try` of `checksigs` -/
 inductive SigParse
   | parsed                    -- `(sig_pair, signature_type)` available
-  | unparseable               -- `UnexpectedDER` / `ValueError`: caught, `public_pair_blobs = []`
+  | unparseable               -- `UnexpectedDER` / `ValueError`: caught, `sig_pair = None`
   deriving DecidableEq, Repr
 
 /-- `parse_and_check_signature_blob(sig_blob, flags, vm)` -/
@@ -108,11 +107,10 @@ def parseAndCheckSignatureBlob (sigBlob : Bytes) (flags : Nat) : M SigParse := d
   if sigBlob.length = 0 then return .unparseable
   if hasFlag flags (VERIFY_DERSIG ||| VERIFY_LOW_S ||| VERIFY_STRICTENC) then checkValidSignature sigBlob
   if hasFlag flags VERIFY_STRICTENC then checkDefinedHashtypeSignature sigBlob
-  match sigdecodeDer sigBlob.dropLast with
-  | .error .unexpected => return .unparseable
-  | .error .typeError => .error (.py "TypeError")
-  | .ok (_, s) =>
-    if hasFlag flags VERIFY_LOW_S then checkLowDerSignature s
+  match sigdecodeDerLax sigBlob.dropLast with
+  | none => return .unparseable
+  | some (r, s) =>
+    if hasFlag flags VERIFY_LOW_S then checkLowDerSignature r s
     return .parsed
 
 /-- `check_public_key_encoding` -/
@@ -122,44 +120,40 @@ def checkPublicKeyEncoding (blob : Bytes) : M Unit :=
     | [] => false
   if ok then pure () else .error (scriptErr errno_PUBKEYTYPE)
 
-/-- the length/prefix part of `sec_to_public_pair(sec, generator, strict)` (32-byte coordinates):
-`false` = `EncodingError`.  Non-strict: 65 bytes with 04/06/07, or 33 bytes with **any** prefix. -/
-def secShapeOk (sec : Bytes) (strict : Bool) : Bool :=
-  if sec.length = 65 then
-    sec.head? = some 4 || (!strict && (sec.head? = some 6 || sec.head? = some 7))
-  else if sec.length = 33 then
-    !strict || sec.head? = some 2 || sec.head? = some 3
-  else false
+/-- the length/prefix part of `public_pair_for_blob(blob, generator)`: 33 bytes with 02/03, 65 bytes with 04/06/07.
+What remains (coordinates below `p`, on the curve, hybrid parity) is inside `Env.checkSig`. -/
+def pubkeyShapeOk (blob : Bytes) : Bool :=
+  (blob.length = 33 && (blob.head? = some 2 || blob.head? = some 3)) ||
+  (blob.length = 65 && (blob.head? = some 4 || blob.head? = some 6 || blob.head? = some 7))
 
-/-- `checksig(vm, sig_pair, signature_type, pair_blob, blobs_to_delete, …)`; `code` is the script code the sighash
-closure will hash (computed, like `sighash_cache`, only when a key gets this far) -/
-def checksig (env : Env) (cfg : Config) (sigBlob pairBlob : Bytes) (code : M Bytes) : M Bool := do
-  let verifyStrict := hasFlag cfg.flags VERIFY_STRICTENC
-  if verifyStrict then checkPublicKeyEncoding pairBlob
+/-- `checksig(vm, sig_pair, signature_type, pair_blob, blobs_to_delete, …)`; `parsed = false` is `sig_pair is None`;
+`code` is the script code the sighash closure will hash (computed, like `sighash_cache`, only when a key gets this far) -/
+def checksig (env : Env) (cfg : Config) (parsed : Bool) (sigBlob pairBlob : Bytes) (code : M Bytes) : M Bool := do
+  if hasFlag cfg.flags VERIFY_STRICTENC then checkPublicKeyEncoding pairBlob
   if hasFlag cfg.flags VERIFY_WITNESS_PUBKEYTYPE then
-    match pairBlob with
-    | [] => .error (.py "IndexError")                         -- pair_blob[0]
-    | fb :: _ => if !(fb = 2 || fb = 3) || pairBlob.length ≠ 33 then .error (scriptErr errno_WITNESS_PUBKEYTYPE)
-  if !secShapeOk pairBlob verifyStrict then return false
+    if pairBlob.length ≠ 33 || !(pairBlob.head? = some 2 || pairBlob.head? = some 3) then
+      .error (scriptErr errno_WITNESS_PUBKEYTYPE)
+  if !parsed then return false
+  if !pubkeyShapeOk pairBlob then return false
   return env.checkSig sigBlob pairBlob (← code) cfg.witness
 
 /-- inner `while len(sig_blobs_remaining) < len(public_pair_blobs)` loop: `some rest` after a `break`,
 `none` when it runs out (`else:` branch).  `pubs` is top-most key first. -/
-def matchKeys (env : Env) (cfg : Config) (sigBlob : Bytes) (code : M Bytes) (nRemaining : Nat) : List Bytes → M (Option (List Bytes))
+def matchKeys (env : Env) (cfg : Config) (parsed : Bool) (sigBlob : Bytes) (code : M Bytes) (nRemaining : Nat) :
+    List Bytes → M (Option (List Bytes))
   | [] => pure none
   | pk :: rest =>
     if nRemaining < rest.length + 1 then do
-      if ← checksig env cfg sigBlob pk code then pure (some rest) else matchKeys env cfg sigBlob code nRemaining rest
+      if ← checksig env cfg parsed sigBlob pk code then pure (some rest)
+      else matchKeys env cfg parsed sigBlob code nRemaining rest
     else pure none
 
 /-- outer `while len(sig_blobs_remaining) > 0` loop; `sigs`, `pubs` top-most first; `true` = all matched -/
 def checksigsLoop (env : Env) (cfg : Config) (code : M Bytes) : List Bytes → List Bytes → M Bool
   | [], _ => pure true
   | sig :: remaining, pubs => do
-    let pubs ← match ← parseAndCheckSignatureBlob sig cfg.flags with
-      | .parsed => pure pubs
-      | .unparseable => pure []
-    match ← matchKeys env cfg sig code remaining.length pubs with
+    let parsed := (← parseAndCheckSignatureBlob sig cfg.flags) == .parsed
+    match ← matchKeys env cfg parsed sig code remaining.length pubs with
     | some pubs => checksigsLoop env cfg code remaining pubs
     | none => pure false
 
